@@ -20,11 +20,15 @@ Fixpoint cumsum_from (acc : Qc) (l : vec) : vec :=
   match l with [] => [] | x :: t => (acc + x)%Qc :: cumsum_from (acc + x)%Qc t end.
 Definition cumsum (l : vec) : vec := cumsum_from 0%Qc l.
 
-(* one row of (cummat_perm, state_perm); last cumulative value forced to 1 *)
+(* one row of (cummat_perm, state_perm): cumulative sums of the row sorted by descending
+   probability; from the last column with T_ij > 0 on the value is forced to 1
+   (idx_last = max(count_nonzero(row), 1) - 1; cummat_perm[idx, idx_last:] = 1) *)
+Definition count_nonzero (row : vec) : nat := length (filter (fun x => negb (Qc_eqb x 0)) row).
 Definition cum_row (row : vec) : vec * list nat :=
   let perm := argsort_desc row in
   let c := cumsum (map (fun k => nth k row 0%Qc) perm) in
-  (removelast c ++ [1%Qc], perm).
+  let idx_last := Nat.max (count_nonzero row) 1 - 1 in
+  (firstn idx_last c ++ repeat 1%Qc (length c - idx_last), perm).
 
 Definition cummat := list (vec * list nat).
 
